@@ -1,7 +1,6 @@
 package main
 
 import (
-	"regexp"
 	"strings"
 
 	"golang.org/x/text/encoding/charmap"
@@ -45,11 +44,18 @@ func specialMaps() []map[string]string {
 	}
 }
 
-var dotsRe = regexp.MustCompile(`\.\.+`)
+// collapseDots replaces runs of dots by one dot (no regexp: its machine pools synchronise
+// goroutines, which must not happen in harness code that runs on schedsim tasks).
+func collapseDots(h string) string {
+	for strings.Contains(h, "..") {
+		h = strings.ReplaceAll(h, "..", ".")
+	}
+	return h
+}
 
 var preFuncs = []func(*url.Url, string) string{
 	func(u *url.Url, h string) string { return h },
-	func(u *url.Url, h string) string { h = strings.Trim(h, "."); return dotsRe.ReplaceAllString(h, ".") },
+	func(u *url.Url, h string) string { return collapseDots(strings.Trim(h, ".")) },
 	func(u *url.Url, h string) string { return "" },
 	func(u *url.Url, h string) string { _ = u.Href(false); _ = u.Host(); return "[" + h },
 	func(u *url.Url, h string) string { return strings.ToUpper(h) },
